@@ -137,19 +137,20 @@ def run_case(scn, drv):
             r['violations'] += v
             feats.extend(f)
             r['evaluated'] += 1
-        if pf.is_mip(rec['op']):
-            # the same problem, booleans relaxed
-            try:
-                v, f, k = R.relaxed(rec, 'relaxed', pf.asset_blocks(rec), None if reads is None else reads + 1)
-                r['violations'] += v
-                feats.extend(f)
-                r['evaluated'] += k
-            except Exception as e:
-                feats.append('relaxed-error:' + impl.err_class(e))
         nz = int((np.abs(rec['out']['DCF'].values).sum(axis=0) > 1e-9).sum())
         r['nontrivial'] = nz >= 2
         r['observed'] = {'value': float(rec['res'].value), 'assets_with_cash_flow': nz}
         feats.extend(G.features(rec, pf.asset_blocks(rec)))
+    if pf.is_mip(rec['op']):
+        # the same problem with the booleans relaxed (also where the MIP itself has no solution)
+        try:
+            v, f, k = R.relaxed(rec, 'relaxed', pf.asset_blocks(rec), None if reads is None else reads + 1, drv=drv, dis=r['disagreements'])
+            r['violations'] += v
+            feats.extend(f)
+            r['evaluated'] += k
+            r['nontrivial'] = r['nontrivial'] or 'relaxed:fractional-boolean-with-cost' in f
+        except Exception as e:
+            feats.append('relaxed-error:' + impl.err_class(e))
     if scn.get('robust_seed') is not None and not isinstance(rec.get('res'), str) and rec.get('out') is not None:
         # robust target over cost samples from perturbed prices (LP and MIP alike): reported value = sum of the DCF table
         try:
@@ -193,11 +194,11 @@ def run_case(scn, drv):
                     v, f = R.read_sequence(rs, 'split', pf.asset_blocks(rs), reads + 3)
                     r['violations'] += v
                     feats.extend('split:' + q for q in f)
-                if pf.is_mip(rs['op']):
-                    v, f, k = R.relaxed(rs, 'split-relaxed', pf.asset_blocks(rs), None if reads is None else reads + 4)
-                    r['violations'] += v
-                    feats.extend(f)
-                    r['evaluated'] += k
+            if pf.is_mip(rs['op']):
+                v, f, k = R.relaxed(rs, 'split-relaxed', pf.asset_blocks(rs), None if reads is None else reads + 4)
+                r['violations'] += v
+                feats.extend(f)
+                r['evaluated'] += k
                 feats.extend('split:' + f for f in G.features(rs, pf.asset_blocks(rs)))
                 if any(len(o.l) and bool(np.all(o.l == o.u)) for o in rs['op'].ops):
                     feats.append('split-with-interval-without-free-variable')
